@@ -11,10 +11,11 @@ CONSTANT GenDepth
 
 NothingToDo == pc = "idle" /\ epoch = st.epoch /\
                   ((st.state = "ready" /\ (Pick = 0 \/ ~CanComputeMessage \/ ~CanBuildSigner)) \/ st.state = "nosign")
+AnyEpochUp == \E flip \in BOOLEAN : EpochUp(flip)     \* (the parameters change at about every other boundary, up to MaxFlips)
 GenEnv ==
-    \/ NothingToDo /\ EpochUp /\ UNCHANGED early
-    \/ pc = "idle" /\ ~NothingToDo /\ early < 1 /\ epoch >= 3 /\ Len(hist) % 4 = 2 /\ EpochUp /\ early' = early + 1     \* an epoch the signer partly misses
-    \/ pc = "fetched" /\ epoch >= 3 /\ Len(hist) % 5 = 1 /\ EpochUp /\ UNCHANGED early                                  \* the epoch turns inside a cycle
+    \/ NothingToDo /\ AnyEpochUp /\ UNCHANGED early
+    \/ pc = "idle" /\ ~NothingToDo /\ early < 1 /\ epoch >= 3 /\ Len(hist) % 4 = 2 /\ AnyEpochUp /\ early' = early + 1     \* an epoch the signer partly misses
+    \/ pc = "fetched" /\ epoch >= 3 /\ Len(hist) % 5 = 1 /\ AnyEpochUp /\ UNCHANGED early                                  \* the epoch turns inside a cycle
     \/ st.state = "ready" /\ epoch = st.epoch /\ Pick = 0 /\ ImmUp /\ UNCHANGED early
     \/ (\E S \in SUBSET Others : OthersRegister(S)) /\ UNCHANGED early
     \/ cnt.restarts < epoch - 1 /\ Len(hist) % 7 = 4 /\ Restart /\ UNCHANGED early
@@ -27,5 +28,6 @@ RecWith(f) == {r \in Rec : f[r] # 0}
 GenPrint == done => PrintT(<<"SCHED", ToJson([steps |-> hist,
                 expect |-> [state |-> st.state, state_epoch |-> st.epoch, data_epoch |-> ed.epoch, epoch |-> epoch, imm |-> imm,
                             signed |-> signed, published |-> {p.entity : p \in published},
-                            inits |-> RecWith(init), regs |-> RecWith(reg), stakes |-> RecWith(stakes), lagged |-> lagged]])>>)
+                            inits |-> RecWith(init), init_gens |-> {<<r, igen[r]>> : r \in RecWith(init)},
+                            agg_gens |-> {<<r, gen[r]>> : r \in RecWith(gen)}, regs |-> RecWith(reg), stakes |-> RecWith(stakes), lagged |-> lagged]])>>)
 =============================================================================
